@@ -10,6 +10,10 @@ fn doc_s(d: &Deb822) -> String {
     crate::s_deb822::doc_items_s(d)
 }
 
+fn ptexts(d: &Deb822) -> String {
+    d.paragraphs().map(|p| format!("{}.", hex(&p.to_string()))).collect::<Vec<_>>().join("")
+}
+
 fn pairs(enc: &str) -> Vec<Vec<(String, String)>> {
     if enc == "-" {
         return vec![];
@@ -46,7 +50,7 @@ pub fn deb822_edit(fs: &[&str]) -> String {
         let mut handles: Vec<Paragraph> = d.paragraphs().collect();
         // a second handle to the document obtained before any edit must see every edit
         let text0 = d.to_string();
-        let items0 = doc_s(&d);
+        let items0 = format!("{}~{}", doc_s(&d), ptexts(&d));
         let mut outs = vec![];
         for op in &ops {
             let parts: Vec<&str> = op.split(':').collect();
@@ -93,7 +97,7 @@ pub fn deb822_edit(fs: &[&str]) -> String {
             if live != via {
                 note.push_str("HANDLE-MISMATCH");
             }
-            outs.push(format!("{}{}~{}", note, hex(&d.to_string()), doc_s(&d)));
+            outs.push(format!("{}{}~{}~{}", note, hex(&d.to_string()), doc_s(&d), ptexts(&d)));
         }
         let fin = d.to_string();
         let reread = match Deb822::from_str(&fin) {
